@@ -100,6 +100,11 @@ fn neighbour_lists(rng: &mut Rng, m: usize, path: &[usize], c: &[Vec<i64>], mode
             nb.sort_by(|a, b| a.1.cmp(&b.1));
             let mut nb: Vec<usize> = nb.into_iter().map(|x| x.0).collect();
             match mode {
+                4 => {
+                    // adversarial but legal AdjacencySpec: any nodes in any order, the node itself and repetitions included
+                    let len = rng.usize(0, 2 * m);
+                    nb = (0..len).map(|_| rng.usize(0, m - 1)).collect();
+                }
                 1 => nb.truncate(5),
                 2 => {
                     rng.shuffle(&mut nb);
@@ -215,10 +220,11 @@ fn gen_lkh(rng: &mut Rng, cases: &mut Vec<Value>, count: usize, max_n: usize) {
         let m = path.iter().copied().max().map(|x| x + 1).unwrap_or(0) + if rng.chance(1, 5) { 2 } else { 0 };
         let kind = rng.below(5);
         let c = sym_matrix(rng, m, kind);
-        let mode = match rng.below(8) {
+        let mode = match rng.below(10) {
             0 => 1,
             1 => 2,
             2 => 3,
+            3 => 4,
             _ => 0,
         };
         let nb = neighbour_lists(rng, m, &path, &c, mode);
@@ -313,13 +319,26 @@ fn kmed_matrix(rng: &mut Rng, m: usize, kind: u64) -> Vec<Vec<i64>> {
             let kind = 1 + rng.below(2);
             sym_matrix(rng, m, kind)
         }
-        _ => {
+        3 => {
             let mut c = vec![vec![0i64; m]; m];
             for i in 0..m {
                 for j in 0..m {
                     if i != j {
                         c[i][j] = rng.range(1, 9);
                     }
+                }
+            }
+            c
+        }
+        // outside the hypotheses of the theorems: zero distances between different points, not a metric
+        _ => {
+            let hi = *rng.pick(&[1i64, 2, 3, 5]);
+            let asym = rng.chance(1, 3);
+            let mut c = vec![vec![0i64; m]; m];
+            for i in 0..m {
+                for j in (i + 1)..m {
+                    c[i][j] = rng.range(0, hi);
+                    c[j][i] = if asym { rng.range(0, hi) } else { c[i][j] };
                 }
             }
             c
@@ -338,15 +357,27 @@ fn gen_kmed(rng: &mut Rng, cases: &mut Vec<Value>, count: usize, max_n: usize) {
             rng.shuffle(&mut points);
         }
         let m = points.iter().copied().max().map(|x| x + 1).unwrap_or(0);
-        let kind = rng.below(4);
+        let kind = match rng.below(10) {
+            r @ 0..=7 => r % 4,
+            _ => 4,
+        };
         let d = kmed_matrix(rng, m, kind);
+        // the callers pass pairwise different points; repeated values are outside the hypotheses
+        let dup = n > 0 && rng.chance(1, 12);
+        if dup {
+            for _ in 0..rng.usize(1, 3) {
+                let p = *rng.pick(&points);
+                let at = rng.usize(0, points.len());
+                points.insert(at, p);
+            }
+        }
         let kk = match rng.below(10) {
             0 => 0,
             1 => n + rng.usize(0, 2),
             2 => 1,
             _ => rng.usize(1, n.max(1)),
         };
-        cases.push(json!({"k": "kmed", "points": points, "d": d, "kk": kk}));
+        cases.push(json!({"k": "kmed", "points": points, "d": d, "kk": kk, "in_hyp": kind < 4 && !dup}));
     }
 }
 
@@ -361,10 +392,13 @@ fn gen_hier(rng: &mut Rng, cases: &mut Vec<Value>, count: usize, max_n: usize) {
             rng.shuffle(&mut points);
         }
         let m = points.iter().copied().max().map(|x| x + 1).unwrap_or(0);
-        let kind = rng.below(4);
+        let kind = match rng.below(10) {
+            r @ 0..=7 => r % 4,
+            _ => 4,
+        };
         let d = kmed_matrix(rng, m, kind);
         let levels = rng.usize(0, 5);
-        cases.push(json!({"k": "hier", "points": points, "d": d, "levels": levels}));
+        cases.push(json!({"k": "hier", "points": points, "d": d, "levels": levels, "in_hyp": kind < 4}));
     }
 }
 
